@@ -74,7 +74,7 @@ func hWord(h, w uint64) uint64 {
 // world is the immutable part of a pair of type names.
 type world struct {
 	a, b     string
-	payloads map[string][][]byte                      // non-zero valid payloads of a and of b
+	payloads map[string][][]byte                         // non-zero valid payloads of a and of b
 	ref      [maxThreads][nPrograms][opsPerThread]uint64 // observations of thread t running program p alone
 }
 
